@@ -14,6 +14,8 @@ CHECKS = {
          "Thousands of generated token lives (instantiate + up to 40/120 calls of every execute variant, edge-biased and state-relative u128 amounts, failing calls included); after every step AllAccounts is paged to exhaustion and the sum of Balance answers is compared with TokenInfo.total_supply, and every step's balance/supply delta is compared with the exact expected delta. Right level: the property is an invariant over histories that is cheap to evaluate exhaustively per step.", "DESIGN.md section 4 / C01"),
  "C02": ("cw20", "stateful property-based testing, history invariants + grant/draw ledger over all (owner,spender) pairs",
          "Generated histories of transfers, sends, burns, allowance changes with all expiry kinds placed around the moving block, draws and the decrease-vs-draw race in both orders; clauses (a)-(e) are evaluated from Balance/Allowance observations of all actors and pairs before and after every call, plus a cumulative granted/drawn ledger and structural comparison of the Cw20ReceiveMsg.", "DESIGN.md section 4 / C02"),
+ "C04": ("cw3lib", "property-based testing of the decision functions against an exact-arithmetic reference model, with exhaustive enumeration of vote completions for totals <= 12",
+         "Millions of constructed proposals (all three threshold kinds incl. percentages a hair above rationals j/total with 9 and 18 decimals, totals from 0 to u64::MAX, tallies placed at yes/no/quorum decision boundaries, before / exactly at / after expiry): after expiry is_passed is compared with the documented formula in exact u128 arithmetic (<= 9 decimals exactly; 18 decimals within one vote and never stricter), before expiry Passed/Rejected are checked against every completion of the outstanding votes (enumerated for totals <= 12, closed-form extremal completions cross-checked against the enumeration above), never both, never Passed with zero Yes.", "DESIGN.md section 4 / C04"),
  "C13": ("cw20", "stateful property-based testing, minter/cap invariants after every call",
          "Generated histories weighted to Mint/Burn/UpdateMinter by minter, ex-minters and strangers with caps at initial supply -1/0/+1 and mint amounts at cap-supply(+1); invariants on supply, cap and minter identity after every call.", "DESIGN.md section 4 / C13"),
  "C19": ("cw20", "stateful property-based testing, three-view differential oracle incl. fabricated legacy storage + migrate",
@@ -21,6 +23,7 @@ CHECKS = {
 }
 
 FAMILIES = {
+ "cw3lib": ("harness/fam_cw3 (module tally)", "proptest generator of (threshold, total, tally, expiry) + exact u128 model + completion enumeration over cw3::Proposal"),
  "cw20": ("harness/fam_cw20", "proptest op-sequence generator + interpreter over cw20-base entry points (direct driver)"),
 }
 
